@@ -64,6 +64,12 @@ pub trait Prop: Sync {
     /// Optional extra stage run once in the parent after the case loop
     /// (sanitizer jobs etc.)
     fn extra_stage(&self, _st: &mut Stats, _tier: Tier, _seed: u64) {}
+    /// Self-contained replay: re-run the recorded witness (shape, setup) from
+    /// the replay file itself, independent of the generators. Returns false
+    /// when the file does not carry enough to do that.
+    fn replay_detail(&self, _replay: &Value, _st: &mut Stats) -> bool {
+        false
+    }
     /// Check minimum-coverage floors; push to `st.inconclusive` when missed
     fn finish(&self, _st: &mut Stats, _tier: Tier) {}
     fn rule(&self) -> String;
@@ -250,6 +256,7 @@ fn child_main(prop: &dyn Prop, a: &Args, c: &ChildArgs) -> ! {
         std::fs::rename(&tmp, &c.out).unwrap();
     };
     let mut case = c.start;
+    let mut cases_since_vma_check = 0u32;
     // align to shard
     while case % c.of != c.shard {
         case += 1;
@@ -263,11 +270,37 @@ fn child_main(prop: &dyn Prop, a: &Args, c: &ChildArgs) -> ! {
             run_one(prop, case, a.seed, a.tier, &mut st);
         }
         case += c.of;
+        // the guard arena is address space that is never handed out twice;
+        // a child that has used most of it hands over to a fresh process
+        // (an exhausted arena would be an allocation failure, i.e. an abort
+        // that has nothing to do with the code under test)
+        // ... and so does one whose address space has become fragmented
+        // into tens of thousands of mappings (guard pages around blocks that
+        // live long): the kernel's per-process mapping limit (65530) would
+        // make the next mprotect fail
+        cases_since_vma_check += 1;
+        if cases_since_vma_check >= 64 {
+            cases_since_vma_check = 0;
+            let vmas = std::fs::read_to_string("/proc/self/maps").map(|m| m.lines().count()).unwrap_or(0);
+            st.max("child_mappings_max", vmas as f64);
+            if vmas > 30_000 {
+                st.inc("children_retired_with_many_mappings");
+                flush(&st, case, false);
+                std::process::exit(0);
+            }
+        }
+        if monitor::guard::arena_used_fraction() > 0.6 {
+            st.inc("children_retired_with_guard_arena_used");
+            st.max("guard_arena_used_fraction", monitor::guard::arena_used_fraction());
+            flush(&st, case, false);
+            std::process::exit(0);
+        }
         if last_flush.elapsed() > Duration::from_millis(1500) {
             flush(&st, case, false);
             last_flush = Instant::now();
         }
     }
+    st.max("guard_arena_used_fraction", monitor::guard::arena_used_fraction());
     flush(&st, case, true);
     std::process::exit(0);
 }
@@ -336,6 +369,11 @@ fn run_children(
                     };
                     if status.success() && done {
                         break;
+                    }
+                    if status.success() && flushed.is_some() && next > start {
+                        // graceful hand-over (guard arena nearly used up)
+                        start = next;
+                        continue;
                     }
                     // abnormal death
                     use std::os::unix::process::ExitStatusExt;
@@ -501,7 +539,27 @@ fn main() {
             Tier::Quick
         };
         let mut st = Stats::default();
-        run_one(prop, case, seed, tier, &mut st);
+        let mut pinned = false;
+        match guarded(|| {
+            let mut st2 = Stats::default();
+            let handled = prop.replay_detail(&v, &mut st2);
+            (handled, st2)
+        }) {
+            Ok((true, st2)) => {
+                println!("replay: re-ran the recorded witness (shape and setup taken from the file)");
+                st = st2;
+                pinned = true;
+            }
+            Ok((false, _)) => {}
+            Err(pi) => {
+                println!("replay: the recorded witness panicked at {}: {}", pi.site(), pi.msg);
+                println!("VIOLATION property={} replay={}", prop.id(), path);
+                std::process::exit(1);
+            }
+        }
+        if !pinned {
+            run_one(prop, case, seed, tier, &mut st);
+        }
         for w in &st.violations {
             println!("replayed: {} [{}]", w.summary, w.signature);
             println!("{}", serde_json::to_string_pretty(&w.detail).unwrap());
